@@ -575,4 +575,260 @@ end Honest
 /-- the honest scenario is accepted -/
 theorem Honest.accepted : verifyLegacy Honest.ctx Honest.req Honest.pres = .ok true := by decide
 
+/-! ### the structural checks, one elimination lemma each -/
+
+theorem compareAttrs_iff (r : Request) (p : Presentation) :
+    compareAttrs r p = true ↔
+      (∀ x, x ∈ keys r.attrs ↔
+        x ∈ keys p.revealed ++ keys p.groups ++ keys p.unrevealed ++ keys p.selfAttested) ∧
+      (∀ x, x ∈ keys r.preds ↔ x ∈ keys p.predicates) := by
+  simp only [compareAttrs, Bool.and_eq_true, sameSet_iff]
+
+/-- `verify_revealed_attribute_value` succeeded: the sub-proof reveals an attribute with the same
+normal-form name whose value is the normalised `encoded` -/
+theorem revealedValueOk_elim {name : String} {s : SymSub} {encoded : String}
+    (h : revealedValueOk name s encoded = true) :
+    ∃ kv ∈ s.revealed, Names.commonView kv.1 = Names.commonView name ∧
+      Encode.normalizeEnc encoded = kv.2 := by
+  unfold revealedValueOk at h
+  cases hl : Names.lookupNorm s.revealed name with
+  | none => rw [hl] at h; cases h
+  | some kv =>
+    rw [hl] at h
+    simp only [beq_iff_eq] at h
+    unfold Names.lookupNorm at hl
+    have h1 := List.mem_of_find?_eq_some hl
+    have h2 := List.find?_some hl
+    simp only [beq_iff_eq] at h2
+    exact ⟨kv, h1, h2, h⟩
+
+/-- the revealed-singles half of `verify_revealed_attribute_values` -/
+theorem revealedValuesOk_single {r : Request} {p : Presentation}
+    (h : revealedValuesOk r p = true) {ref : String} {info : RevealedInfo}
+    (hm : (ref, info) ∈ p.revealed) :
+    ∃ a n s, r.attrs.lookup ref = some a ∧ a.name = some n ∧ p.subs[info.idx]? = some s ∧
+      revealedValueOk n s info.encoded = true := by
+  simp only [revealedValuesOk, Bool.and_eq_true, List.all_eq_true] at h
+  have := h.1 _ hm
+  simp only [] at this
+  cases ha : r.attrs.lookup ref with
+  | none => rw [ha] at this; cases this
+  | some a =>
+    rw [ha] at this; simp only [] at this
+    cases hn : a.name with
+    | none => rw [hn] at this; cases this
+    | some n =>
+      rw [hn] at this; simp only [] at this
+      cases hs : p.subs[info.idx]? with
+      | none => rw [hs] at this; cases this
+      | some s =>
+        rw [hs] at this
+        exact ⟨a, n, s, rfl, hn, rfl, this⟩
+
+/-- the groups half of `verify_revealed_attribute_values` -/
+theorem revealedValuesOk_group {r : Request} {p : Presentation}
+    (h : revealedValuesOk r p = true) {ref : String} {g : GroupInfo}
+    (hm : (ref, g) ∈ p.groups) :
+    ∃ a names s, r.attrs.lookup ref = some a ∧ a.names = some names ∧ p.subs[g.idx]? = some s ∧
+      g.values.length = names.length ∧
+      ∀ n ∈ names, ∃ re, g.values.lookup n = some re ∧ revealedValueOk n s re.2 = true := by
+  simp only [revealedValuesOk, Bool.and_eq_true, List.all_eq_true] at h
+  have := h.2 _ hm
+  simp only [] at this
+  cases hs : p.subs[g.idx]? with
+  | none => rw [hs] at this; cases this
+  | some s =>
+    rw [hs] at this; simp only [] at this
+    cases ha : r.attrs.lookup ref with
+    | none => rw [ha] at this; cases this
+    | some a =>
+      rw [ha] at this; simp only [] at this
+      cases hn : a.names with
+      | none => rw [hn] at this; cases this
+      | some names =>
+        rw [hn] at this
+        simp only [Bool.and_eq_true, decide_eq_true_eq, List.all_eq_true] at this
+        refine ⟨a, names, s, rfl, hn, rfl, this.1, fun n hn' => ?_⟩
+        have h2 := this.2 n hn'
+        cases hv : g.values.lookup n with
+        | none => rw [hv] at h2; cases h2
+        | some re => rw [hv] at h2; exact ⟨re, rfl, h2⟩
+
+theorem unrevealedOk_elim {ctx : Ctx} {r : Request} {p : Presentation}
+    (h : unrevealedOk ctx r p = true) {ref : String} {i : Nat} (hm : (ref, i) ∈ p.unrevealed) :
+    ∃ a id sc, r.attrs.lookup ref = some a ∧ p.identifiers[i]? = some id ∧
+      ctx.schemas.lookup id.schemaId = some sc ∧
+      ∀ n ∈ a.allNames, Names.hasNorm sc.attrNames n = true := by
+  simp only [unrevealedOk, List.all_eq_true] at h
+  have := h _ hm
+  simp only [] at this
+  cases ha : r.attrs.lookup ref with
+  | none => rw [ha] at this; cases this
+  | some a =>
+    rw [ha] at this; simp only [] at this
+    cases hid : p.identifiers[i]? with
+    | none => rw [hid] at this; cases this
+    | some id =>
+      rw [hid] at this; simp only [] at this
+      cases hsc : ctx.schemas.lookup id.schemaId with
+      | none => rw [hsc] at this; cases this
+      | some sc =>
+        rw [hsc] at this
+        simp only [List.all_eq_true] at this
+        exact ⟨a, id, sc, rfl, rfl, hsc, this⟩
+
+theorem predicatesOk_elim {r : Request} {p : Presentation}
+    (h : predicatesOk r p = true) {ref : String} {i : Nat} (hm : (ref, i) ∈ p.predicates) :
+    ∃ q s, r.preds.lookup ref = some q ∧ p.subs[i]? = some s ∧
+      ∃ pr ∈ s.preds, Names.commonView pr.attr = Names.commonView q.name ∧ pr.ty = q.ty ∧
+        pr.value = q.value := by
+  simp only [predicatesOk, List.all_eq_true] at h
+  have := h _ hm
+  simp only [] at this
+  cases hq : r.preds.lookup ref with
+  | none => rw [hq] at this; cases this
+  | some q =>
+    rw [hq] at this; simp only [] at this
+    cases hs : p.subs[i]? with
+    | none => rw [hs] at this; cases this
+    | some s =>
+      rw [hs] at this
+      simp only [List.any_eq_true, Bool.and_eq_true, beq_iff_eq] at this
+      obtain ⟨pr, hpr, ⟨h1, h2⟩, h3⟩ := this
+      exact ⟨q, s, rfl, rfl, pr, hpr, h1, h2, h3⟩
+
+/-- `proof_attr_identifiers.get(referent)` is `Some` only for a referent of one of the three maps -/
+theorem attrIdentifierIdx_some {p : Presentation} {ref : String} {i : Nat}
+    (h : attrIdentifierIdx p ref = some i) :
+    p.unrevealed.lookup ref = some i ∨
+    (∃ g, p.groups.lookup ref = some g ∧ g.idx = i) ∨
+    (∃ info, p.revealed.lookup ref = some info ∧ info.idx = i) := by
+  unfold attrIdentifierIdx at h
+  cases hu : p.unrevealed.lookup ref with
+  | some j => rw [hu] at h; simp only [Option.some.injEq] at h; exact Or.inl (h ▸ rfl)
+  | none =>
+    rw [hu] at h; simp only [] at h
+    cases hg : p.groups.lookup ref with
+    | some g => rw [hg] at h; simp only [Option.some.injEq] at h; exact Or.inr (Or.inl ⟨g, rfl, h⟩)
+    | none =>
+      rw [hg] at h; simp only [] at h
+      cases hr : p.revealed.lookup ref with
+      | none => rw [hr] at h; simp at h
+      | some info =>
+        rw [hr] at h; simp only [Option.map_some, Option.some.injEq] at h
+        exact Or.inr (Or.inr ⟨info, rfl, h⟩)
+
+theorem attrIdentifierIdx_mem {p : Presentation} {ref : String} {i : Nat}
+    (h : attrIdentifierIdx p ref = some i) :
+    ref ∈ keys p.revealed ++ keys p.groups ++ keys p.unrevealed := by
+  simp only [List.mem_append]
+  rcases attrIdentifierIdx_some h with h | ⟨g, h, _⟩ | ⟨info, h, _⟩
+  · exact Or.inr (mem_keys_of_lookup h)
+  · exact Or.inl (Or.inr (mem_keys_of_lookup h))
+  · exact Or.inl (Or.inl (mem_keys_of_lookup h))
+
+/-! ### restrictions: filter, value map, unique referents -/
+
+theorem gatherFilter_some {ctx : Ctx} {id : Identifier} {f : Filter}
+    (h : gatherFilter ctx id = some f) :
+    ∃ sc cd, ctx.schemas.lookup id.schemaId = some sc ∧ ctx.credDefs.lookup id.credDefId = some cd ∧
+      f.schemaId = id.schemaId ∧ f.schemaIssuerId = sc.issuerId ∧ f.schemaName = sc.name ∧
+      f.schemaVersion = sc.version ∧ f.issuerId = cd.issuerId ∧ f.credDefId = id.credDefId := by
+  unfold gatherFilter at h
+  cases hsc : ctx.schemas.lookup id.schemaId with
+  | none => rw [hsc] at h; simp at h
+  | some sc =>
+    cases hcd : ctx.credDefs.lookup id.credDefId with
+    | none => rw [hsc, hcd] at h; simp at h
+    | some cd =>
+      rw [hsc, hcd] at h
+      simp only [Option.some.injEq] at h
+      subst h
+      exact ⟨sc, cd, rfl, rfl, rfl, rfl, rfl, rfl, rfl, rfl⟩
+
+/-- the value map on which `verify_requested_restrictions` evaluates the restriction of an attribute
+referent: for a single `name`, its revealed **raw** value (`none` if the referent is not in
+`revealed_attrs`); for `names`, the raw values of the group members (`none` for a name the group
+lacks or if the referent is not in `revealed_attr_groups`) -/
+def attrValueMap (p : Presentation) (ref : String) (a : AttrInfo) : List (String × Option String) :=
+  match a.name with
+  | some name => [(name, (p.revealed.lookup ref).map (·.raw))]
+  | none =>
+    match a.names with
+    | some names =>
+      names.map (fun n => (n, ((p.groups.lookup ref).bind (fun g => g.values.lookup n)).map (·.1)))
+    | none => []
+
+theorem attrRestrictionOk_elim {ctx : Ctx} {p : Presentation} {ref : String} {a : AttrInfo}
+    {q : Query} (h : attrRestrictionOk ctx p ref a q = true) :
+    ∃ i id f, attrIdentifierIdx p ref = some i ∧ p.identifiers[i]? = some id ∧
+      gatherFilter ctx id = some f ∧
+      Query.eval Ident.isLegacyDid (attrValueMap p ref a) f q = true := by
+  unfold attrRestrictionOk at h
+  cases hi : attrIdentifierIdx p ref with
+  | none => rw [hi] at h; cases h
+  | some i =>
+    rw [hi] at h; simp only [] at h
+    cases hid : p.identifiers[i]? with
+    | none => rw [hid] at h; cases h
+    | some id =>
+      rw [hid] at h; simp only [] at h
+      cases hf : gatherFilter ctx id with
+      | none => rw [hf] at h; cases h
+      | some f =>
+        rw [hf] at h; simp only [] at h
+        refine ⟨i, id, f, rfl, hid, hf, ?_⟩
+        unfold attrValueMap
+        cases hn : a.name with
+        | some name => rw [hn] at h; exact h
+        | none =>
+          rw [hn] at h; simp only [] at h ⊢
+          cases hns : a.names with
+          | none => rw [hns] at h; cases h
+          | some names =>
+            rw [hns] at h; simp only [] at h ⊢
+            split at h
+            · cases h
+            · exact h
+
+theorem uniqueReferents_iff (p : Presentation) :
+    uniqueReferents p = true ↔ (keys p.revealed ++ keys p.groups ++ keys p.unrevealed).Nodup :=
+  noDup_iff _
+
+/-- `check_unique_attr_referents`: a referent of the three indexed attribute maps is in exactly one -/
+theorem uniqueReferents_exactly_one {p : Presentation} (h : uniqueReferents p = true) {ref : String}
+    (hm : ref ∈ keys p.revealed ++ keys p.groups ++ keys p.unrevealed) :
+    (ref ∈ keys p.revealed ∧ ref ∉ keys p.groups ∧ ref ∉ keys p.unrevealed) ∨
+    (ref ∉ keys p.revealed ∧ ref ∈ keys p.groups ∧ ref ∉ keys p.unrevealed) ∨
+    (ref ∉ keys p.revealed ∧ ref ∉ keys p.groups ∧ ref ∈ keys p.unrevealed) := by
+  have hnd := (uniqueReferents_iff p).mp h
+  rw [List.nodup_append, List.nodup_append] at hnd
+  obtain ⟨⟨-, -, h12⟩, -, h3⟩ := hnd
+  simp only [List.mem_append] at hm h3
+  rcases hm with (h1 | h2) | h3'
+  · exact Or.inl ⟨h1, fun h2 => h12 _ h1 _ h2 rfl, fun h3' => h3 _ (Or.inl h1) _ h3' rfl⟩
+  · exact Or.inr (Or.inl ⟨fun h1 => h12 _ h1 _ h2 rfl, h2, fun h3' => h3 _ (Or.inr h2) _ h3' rfl⟩)
+  · exact Or.inr (Or.inr ⟨fun h1 => h3 _ (Or.inl h1) _ h3' rfl, fun h2 => h3 _ (Or.inr h2) _ h3' rfl, h3'⟩)
+
+/-- each of the three indexed attribute maps has unique keys once `check_unique_attr_referents` passed -/
+theorem uniqueReferents_nodup {p : Presentation} (h : uniqueReferents p = true) :
+    (keys p.revealed).Nodup ∧ (keys p.groups).Nodup ∧ (keys p.unrevealed).Nodup := by
+  have hnd := (uniqueReferents_iff p).mp h
+  rw [List.nodup_append, List.nodup_append] at hnd
+  exact ⟨hnd.1.1, hnd.1.2.1, hnd.2.1⟩
+
+/-- the attribute clause for a requested attribute: self-attested-and-unrestricted, or
+unrestricted, or the restriction check passed -/
+theorem attrClause_elim {ctx : Ctx} {p : Presentation} {ref : String} {a : AttrInfo}
+    (h : attrClause ctx p (ref, a) = true) :
+    Query.isSelfAttested a.restrictions ((keys p.selfAttested).contains ref) = true ∨
+    a.restrictions = none ∨ ∃ q, a.restrictions = some q ∧ attrRestrictionOk ctx p ref a q = true := by
+  unfold attrClause at h
+  simp only [] at h
+  split at h
+  · rename_i hs; exact Or.inl hs
+  · cases hq : a.restrictions with
+    | none => exact Or.inr (Or.inl rfl)
+    | some q => rw [hq] at h; exact Or.inr (Or.inr ⟨q, rfl, h⟩)
+
 end AnonModel.Verifier
